@@ -14,7 +14,7 @@ CONSTANTS
   MaxAcks = 1
   MaxGen = 4
   MaxNotify = 2
-  MaxEnds = 2
+  MaxEnds = 1
   MaxFail = 0
   AutoReset = "earliest"
   Finite = FALSE
